@@ -10,7 +10,7 @@ TECH = 'Lean 4 theorems over a hand-written executable model + differential corr
 CLAIMED = {
  'C13': (
   'Lean 4 proof over an executable graph model (relation_paths, taxonomy.py); correspondence on enumerated/random digraphs',
-  'Theorems in lean/WnVerif/Props/C13.lean characterise hypernym_paths (all maximal simple chains, any finite digraph, no size bound), min/max depth, common/lowest common hypernyms and shortest_path of the Lean model of wn/taxonomy.py and _Relatable.relation_paths; taxonomy_depth is proved for acyclic graphs only (_partial) with a kernel-checked cyclic counter-example (known finding F14). The model is tied to the code by running model and wn.taxonomy on the same digraphs (all labelled digraphs on <=2 nodes, a sample / all of the 512 on 3 nodes, random graphs up to 8-10 nodes, every node, every ordered pair, simulate_root on/off) and by independent graph-algorithm oracles on the real API.',
+  'Theorems in lean/WnVerif/Props/C13.lean characterise hypernym_paths (all maximal simple chains, any finite digraph, no size bound), min/max depth, common/lowest common hypernyms and shortest_path of the Lean model of wn/taxonomy.py and _Relatable.relation_paths; taxonomy_depth is proved equal to the longest hypernym chain on every acyclic taxonomy of any size (C13_depth_acyclic_partial, via Lemmas/Acyclic.lean: the seen shortcut is sound when a rank decreases along every edge), with a kernel-checked cyclic counter-example where it is not (known finding F14). The model is tied to the code by running model and wn.taxonomy on the same digraphs (all labelled digraphs on <=2 nodes, a sample / all of the 512 on 3 nodes, random graphs up to 8-10 nodes, every node, every ordered pair, simulate_root on/off) and by independent graph-algorithm oracles on the real API.',
   'Trusted: Lean kernel; axioms propext/Classical.choice/Quot.sound only; the correspondence harness; SQLite row order of get_synset_relations and rowid allocation are modelled, not verified.'),
  'C14': (
   'Lean 4 proof over exact rationals (similarity formulas, Real.log for lch) + correspondence of wn.similarity with the model on enumerated/random digraphs and IC weights',
